@@ -493,15 +493,16 @@ func mkResult(r Result, decorator bool, fn, exec int, lens []int, slot *int) ref
 // ---------- running one case ----------
 
 type runner struct {
-	c       *Case
-	fns     map[int]*Fn
-	execs   map[int]int
-	events  []Event
-	advance func(time.Duration)
-	scopes  []*dig.Scope
-	cont    *dig.Container
-	poolFn  map[int]*Fn
-	nested  func(scope, fn int)
+	c        *Case
+	fns      map[int]*Fn
+	execs    map[int]int
+	events   []Event
+	advance  func(time.Duration)
+	scopes   []*dig.Scope
+	cont     *dig.Container
+	poolFn   map[int]*Fn
+	nested   func(scope, fn int)
+	poolRole map[int]string // declared function -> "dec" when registered through Decorate
 }
 
 func (r *runner) planAt(f *Fn, e int) string {
@@ -605,7 +606,11 @@ func poolCall(i int, args []reflect.Value) []reflect.Value {
 	if f == nil {
 		panic(fmt.Sprintf("harness: pool function %d is not part of the running case", i))
 	}
-	return r.body(f, "ctor", args)
+	role := "ctor"
+	if r.poolRole != nil && r.poolRole[i] == "dec" {
+		role = "dec"
+	}
+	return r.body(f, role, args)
 }
 
 func toErr(v reflect.Value) error {
